@@ -5,7 +5,7 @@
 
    Vocabulary: `run b l` / `srun s l` = what a caller sees after each call of the history l (result with error
    class or panic, Len(), Bytes()) on the concrete model of tex.Buffer / on the contract of bytes.Buffer;
-   `ok_seq false s l` = l is a history the property speaks about (no UnreadByte/UnreadRune whose nearest non-query
+   `ok_seq false k s l` = l is a history the property speaks about, k bounding the capacity reached so far (no UnreadByte/UnreadRune whose nearest non-query
    predecessor is a Grow; readers never deliver more than MinRead-sized offers, writers never report a negative
    count; ReWrite only where the contract fixes the addressing). *)
 From Coq Require Import List Bool ZArith Arith.
@@ -19,30 +19,51 @@ Proof. exact case_sound. Qed.
 (* sentence 1 of the property: same results, errors, panics and unread contents on every history, from every
    constructor (zero value, NewBuffer, NewBufferString, NewSizedBuffer), for all 18 operations + Cap + ReWrite *)
 Theorem c11_tex_buffer_is_bytes_buffer : forall i l,
-  init_wf i = true -> ok_seq false (init_spec i) l = true -> run (init_buf i) l = srun (init_spec i) l.
+  init_wf i = true -> ok_seq false (init_k i) (init_spec i) l = true -> run (init_buf i) l = srun (init_spec i) l.
 Proof. exact tex_buffer_is_bytes_buffer. Qed.
 
 (* what a caller sees does not depend on the initial capacity / nil-ness: the growth path taken is invisible *)
 Theorem c11_capacity_irrelevant : forall i1 i2 l,
   init_wf i1 = true -> init_wf i2 = true -> init_data i1 = init_data i2 ->
-  ok_seq false (init_spec i1) l = true -> run (init_buf i1) l = run (init_buf i2) l.
+  ok_seq false (init_k i1) (init_spec i1) l = true -> ok_seq false (init_k i2) (init_spec i2) l = true ->
+  run (init_buf i1) l = run (init_buf i2) l.
 Proof. exact capacity_irrelevant. Qed.
 
 (* the same from any pair of related states (e.g. in the middle of a history) *)
-Theorem c11_tex_refines_contract : forall l g b s, R g b s -> ok_seq g s l = true -> run b l = srun s l.
+Theorem c11_tex_refines_contract : forall l g k b s, R g b s -> (zn (cap b) <= k)%Z -> ok_seq g k s l = true -> run b l = srun s l.
 Proof. exact tex_refines_contract. Qed.
 
 (* one operation: equal result and related successor states (all twenty operations) *)
-Theorem c11_step_sim : forall g b s o, R g b s -> op_ok g s o = true ->
-  snd (step b o) = snd (sstep s o) /\ R (next_g g o) (fst (step b o)) (fst (sstep s o)).
+Theorem c11_step_sim : forall g k b s o, R g b s -> (zn (cap b) <= k)%Z -> op_ok g k s o = true ->
+  snd (step b o) = snd (sstep s o) /\ R (next_g g o) (fst (step b o)) (fst (sstep s o)) /\
+  (zn (cap (fst (step b o))) <= next_k k o)%Z.
 Proof. exact step_sim. Qed.
 
 (* the structural invariant (offset within storage, storage within capacity, nil slice empty) holds in every
    reachable state, and the states stay related *)
-Theorem c11_reachable_related : forall l g b s, R g b s -> ok_seq g s l = true -> R (gexec g l) (exec b l) (sexec s l).
+Theorem c11_reachable_related : forall l g k b s, R g b s -> (zn (cap b) <= k)%Z -> ok_seq g k s l = true ->
+  R (gexec g l) (exec b l) (sexec s l) /\ (zn (cap (exec b l)) <= kexec k l)%Z.
 Proof. exact reachable_related. Qed.
-Theorem c11_reachable_inv : forall l g b s, R g b s -> ok_seq g s l = true -> Inv (exec b l).
+Theorem c11_reachable_inv : forall l g k b s, R g b s -> (zn (cap b) <= k)%Z -> ok_seq g k s l = true -> Inv (exec b l).
 Proof. exact reachable_inv. Qed.
+
+(* sizes that cannot be allocated (beyond max_alloc, while the capacity itself is below it): Grow panics with
+   ErrTooLarge in the model of tex.Buffer and in the contract alike and no unread byte is lost; whenever grow's
+   overflow guard `c > maxInt-c-n` fires the request is beyond max_alloc anyway; while the worst-case reallocation
+   2c+n is allocatable grow never panics; a negative size panics with the negative-count message *)
+Theorem c11_grow_too_large : forall g k b s n, R g b s -> (zn (cap b) <= k <= max_alloc)%Z -> (max_alloc < n)%Z ->
+  snd (step b (Grow n)) = (st_too_large, []) /\ snd (sstep s (Grow n)) = (st_too_large, []) /\
+  live (fst (step b (Grow n))) = live b /\ un (fst (sstep s (Grow n))) = un s.
+Proof. exact grow_too_large. Qed.
+Theorem c11_too_large_beyond_max_alloc : forall b n, (zn (cap b) <= max_alloc)%Z -> (max_alloc < n)%Z -> too_large b n = true.
+Proof. exact too_large_true. Qed.
+Theorem c11_never_too_large_when_allocatable : forall b n, (0 <= n)%Z -> (2 * zn (cap b) + n <= max_alloc)%Z -> too_large b n = false.
+Proof. exact too_large_false. Qed.
+Theorem c11_overflow_guard_is_too_large : forall c n, (0 <= c)%Z -> (max_int - c - n < c)%Z -> (max_alloc < 2 * c + n)%Z.
+Proof. exact overflow_guard_is_too_large. Qed.
+Theorem c11_grow_negative : forall b s n, (n < 0)%Z ->
+  step b (Grow n) = (b, (st_neg_count, [])) /\ sstep s (Grow n) = (s, (st_neg_count, [])).
+Proof. exact grow_negative. Qed.
 
 (* all five paths of grow() (and the reslice-first variant the writes use) keep the unread bytes, the invariant and
    len = m + n *)
@@ -110,7 +131,7 @@ Theorem c11_write_read_rune : forall s r, un s = [] -> valid_scalar r ->
 Proof. exact write_read_rune. Qed.
 
 (* non-vacuity: a history through all twenty operations, the grow paths, valid Unread* after every kind of read *)
-Theorem c11_demo : ok_seq false (init_spec IZero) demo_history = true /\
+Theorem c11_demo : ok_seq false (init_k IZero) (init_spec IZero) demo_history = true /\
                    run (init_buf IZero) demo_history = srun (init_spec IZero) demo_history.
 Proof. exact demo_ok. Qed.
 Theorem c11_grow_paths :
@@ -145,6 +166,11 @@ Print Assumptions c11_tex_refines_contract.
 Print Assumptions c11_step_sim.
 Print Assumptions c11_reachable_related.
 Print Assumptions c11_reachable_inv.
+Print Assumptions c11_grow_too_large.
+Print Assumptions c11_too_large_beyond_max_alloc.
+Print Assumptions c11_never_too_large_when_allocatable.
+Print Assumptions c11_overflow_guard_is_too_large.
+Print Assumptions c11_grow_negative.
 Print Assumptions c11_grow_keeps_unread.
 Print Assumptions c11_grow_for_write_keeps_unread.
 Print Assumptions c11_rewrite_contract.
